@@ -287,12 +287,20 @@ MUST_FIRE += [
     ("m115", ["C11"], ["B3"], rep1(S + "tomography.py", "            for index, qubit in enumerate(qubits):\n                new_key[qubit] = key[index]\n", "            new_key.z[list(qubits)] = key.z\n            new_key.x[list(qubits)] = key.x\n"), "re-embedding through the z/x arrays only: the phase unit of every Y factor is lost"),
     ("m116", ["C04", "C17"], ["K2"], rep1(S + "circuit_lookup.py", "        self.depth = int(components[2])", "        self.depth = int(min(components[1:3]))"), "depth clamped by a string comparison of the two columns"),
     ("m117", ["C18"], ["K17b"], rep1(S + "f2_algebra.py", "    return len(rref(A)[1])", "    return int(np.trace(rref(A)[0]))"), "rank read off the diagonal of the reduced matrix"),
+    ("m118", ["C18"], ["K18"], rep1(S + "f2_algebra.py", "    return len(rref(A)[1])", "    return int(np.argmin(rref(A)[0].any(axis=1)))"), "rank as index of the first zero row: 0 when there is none"),
+    ("m119", ["C18"], ["K18"], rep1(S + "f2_algebra.py", "    cols = A.shape[1]\n\n    out = []", "    cols = A.shape[1]\n    if len(pivot_cols) in (0, cols):\n        return np.zeros((0, cols), dtype=np.int8)\n    out = []"), "empty kernel basis also for the zero matrix"),
+    ("m120", ["C16"], ["K6"], rep1(S + "find_local_clifford_layer.py", "    assert gamma.shape[0] == gamma.shape[1] and R.shape == S.shape and R.shape[0] == gamma.shape[0]", "    assert R.shape == S.shape == gamma.shape"), "shape assertion demands as many operators as qubits"),
+    ("m121", ["C14"], ["E2"], rep1(S + "graph.py", "        for vertex1, vertex2 in self.get_edges():\n            qc.cz(vertex1, vertex2)", "        for vertex1, vertex2 in np.argwhere(self.adjacency_matrix):\n            qc.cz(vertex1, vertex2)"), "every cz of the graph-state circuit emitted twice (both orientations of the symmetric matrix)"),
+    ("m122", ["C07"], ["B5"], rep1(S + "rotate_stabilizer_into_state.py", "target = synth_circuit_from_stabilizers(target.to_list(qiskit_convention=True))", "target = synth_circuit_from_stabilizers(target.to_list())"), "strict synthesis fed with library-order strings"),
+    ("m123", ["C07"], ["A9"], rep1(S + "stabilizer_circuits.py", "    optimized_circuit = _get_preparation_circuit_modulo_phase(Stabilizer(circuit), connectivity)", "    if not circuit:\n        raise ValueError(\"no circuit\")\n    optimized_circuit = _get_preparation_circuit_modulo_phase(Stabilizer(circuit), connectivity)"), "zero-gate circuit rejected by a truth-value test"),
+    ("m124", ["C18"], ["K19"], rep1(S + "f2_algebra.py", "                A[i, :] = (A[i, :] + A[i, k]*A[h, :]) % 2", "                A[i, :] = A[i, :] + A[i, k]*A[h, :]"), "row update without the reduction modulo 2"),
     ("m95", ["C19"], ["K12"], rep1(S + "graph.py", "    def compress(self) -> int:", "    def compress(self) -> int:\n        if getattr(self, \"_id\", None) is not None:\n            return self._id\n        self._id = self._compress()\n        return self._id\n\n    def _compress(self) -> int:"), "graph id remembered by the object and never invalidated"),
     ("m72", ["C13"], ["A3"], rep1(S + "circuit_lookup.py", "result.circuits = [circuit.copy() for circuit in self.circuits]", "result.circuits = list(self.circuits)"), "fresh list of the cached circuits"),
 ]
 
 MUST_STAY_SILENT = [
     # id, properties to run, edit, exit 2 tolerated?, note
+    ("s33", ["C18"], rep1(S + "f2_algebra.py", "    cols = A.shape[1]\n\n    out = []", "    cols = A.shape[1]\n    if len(pivot_cols) == cols:\n        return np.zeros((0, cols), dtype=np.int8)\n    out = []"), False, "early empty basis exactly when every column is a pivot column"),
     ("s32", ["C04", "C17"], rep1(S + "circuit_lookup.py", "        self.depth = int(components[2])", "        self.depth = min(int(components[2]), max(int(components[1]), int(components[2])))"), False, "depth computed, equal to its column on every shipped line"),
     ("s31", ["C18"], rep1(S + "f2_algebra.py", "    while h < m and k < n:\n        found = False\n        i = h\n        while not found and i < m:\n            if A[i, k] == 1:", "    while h <= m - 1 and k < n:\n        found = False\n        i = h\n        while not found and i < m:\n            if A[i, k] == 1:"), False, "cursor bound written as h <= m - 1: the same bound"),
     ("s29", ["C02", "C03", "C04", "C09", "C17"], rep1(S + "circuit_lookup.py", "                qc.cz(qubits[0], qubits[1])", "                qc.cz(qubits[1], qubits[0])"), False, "operands of the symmetric cz given in the other order: the same gate"),
